@@ -187,6 +187,7 @@ pub fn gen_exec_scenario(id: &str, run_seed: u64) -> Result<Scenario, String> {
                 body,
                 magic,
                 tag: None,
+                clear: false,
             });
         }
         if !sites.is_empty() {
